@@ -96,10 +96,24 @@ class RecRng:
         return getattr(self._g, name)
 
 
+STEP_CODES = {"butterworth": 1, "phase_shift": 2, "bad_channel_interpolation": 3, "car": 4, "kfilt": 5}
+
+
+def case_header(case):
+    nc = case["nc"]
+    shift = np.zeros(nc) if not case.get("shift") else (np.arange(nc) % 13) / 13.0 * 0.9
+    return {"x": np.array([g[0] for g in case["geom"]], dtype=float),
+            "y": np.array([g[1] for g in case["geom"]], dtype=float), "sample_shift": shift}
+
+
 def make_recording(case, d):
     ns, nc = case["ns"], case["nc"]
     stride = nc + 1
     data = (np.arange(ns, dtype=np.int64)[:, None] * stride + np.arange(nc + 1)[None, :]).astype(np.float32)
+    if case.get("float_seed") is not None:      # preprocessing cases: noise with a few large deflections
+        g = np.random.RandomState(case["float_seed"])
+        data = (g.standard_normal((ns, nc + 1)) * 20 + 200 * (g.random_sample((ns, nc + 1)) > 0.995)).astype(np.float32)
+        data[:, nc] = 0
     f = Path(d) / "rec.bin"
     data.tofile(f)
     return f, data
@@ -122,9 +136,17 @@ def impl_extract(case, binf, size, n_jobs, out):
     ss, sc, sch = arrs
     if case.get("bin_str"):
         binf = str(binf)
-    h = {"x": np.array([g[0] for g in case["geom"]], dtype=float),
-         "y": np.array([g[1] for g in case["geom"]], dtype=float),
-         "sample_shift": np.zeros(nc)}
+    h = case_header(case)
+    steps = case.get("steps", [])
+    labels_arg = None if case.get("chan_labels") is None else np.array(case["chan_labels"], dtype=float)
+    rkw = case.get("reader_kwargs")
+    if rkw is None:
+        rkw = {"ns": ns, "nc": nc + 1, "nsync": 1, "dtype": "float32", "fs": 30000}
+    extra = {}
+    if case.get("wfs_dtype"):
+        extra["wfs_dtype"] = np.dtype(case["wfs_dtype"]).type
+    if case.get("scratch"):
+        extra["scratch_dir"] = Path(case["scratch"])
     out = Path(out)
     out.mkdir(parents=True, exist_ok=True)
     log = []
@@ -142,9 +164,9 @@ def impl_extract(case, binf, size, n_jobs, out):
             warnings.simplefilter("ignore")
             we.extract_wfs_cbin(
                 binf, out, ss, sc, sch, h=(None if case.get("h_none") else h),
-                reader_kwargs={"ns": ns, "nc": nc + 1, "nsync": 1, "dtype": "float32", "fs": 30000},
+                reader_kwargs=rkw, channel_labels=labels_arg,
                 max_wf=case["maxwf"], trough_offset=case["to"], spike_length_samples=case["L"],
-                chunksize_samples=size, n_jobs=n_jobs, preprocess_steps=[], seed=case["seed"])
+                chunksize_samples=size, n_jobs=n_jobs, preprocess_steps=steps, seed=case["seed"], **extra)
     except BaseException as e:  # noqa  (SystemExit / KeyboardInterrupt raised by the code under test included)
         if isinstance(e, ImplTimeout):
             HUNG.append(1)
@@ -252,7 +274,7 @@ def loader_sequence(we, case, out, obs):
             res["seq_bad"].append("call %d (%s): load_waveforms does not return the saved rows "
                                   "(after in-place edits of earlier results)" % (step, name))
         scribble(wfs, info, chans)
-        wfs2 = wl.load_waveforms(labels=la, indices=ia, return_info=False)
+        wfs2 = wl.load_waveforms(labels=la, indices=ia, return_info=False, flatten=bool(step % 2))   # flatten: no effect on v2 files
         if not isinstance(wfs2, np.ndarray) or not nan_eq(wfs2, snap_tr[rows]):
             res["seq_bad"].append("call %d (%s): repeated load differs from the saved rows" % (step, name))
         scribble(wfs2, None, None)
@@ -285,8 +307,65 @@ def nan_eq(a, b):
     return a.shape == b.shape and bool(np.all((a == b) | (np.isnan(a) & np.isnan(b))))
 
 
-def oracle(case, obs, data):
-    """The property's clauses evaluated on the implementation's files only."""
+def py_plan(case, size, tb):
+    """Chunk geometry of write_wfs_chunk written independently of the model: for each table row
+    (waveform_index, chunk, snippet start, snippet length, local column of the window start, peak)."""
+    ns, to, L = case["ns"], case["to"], case["L"]
+    nchunks = -(-ns // size)
+    plan = []
+    for r in range(tb.shape[0]):
+        s = int(tb[r, 1])
+        i = s // size
+        off = 0 if i == 0 else to
+        a = i * size - off
+        s1 = ns if i == nchunks - 1 else (i + 1) * size
+        b = min(ns, s1 + L - to)
+        plan.append([int(tb[r, 4]), i, a, max(0, b - a), s - a - to, int(tb[r, 3])])
+    return plan
+
+
+def apply_steps(case, snip, labels):
+    """The requested library steps on one snippet (channels x samples, float32), in the documented order and
+    with the arguments write_wfs_chunk uses.  The functions are the implementation's own (their
+    correctness belongs to C05 / C07 / C15)."""
+    import scipy.signal
+    from ibldsp.voltage import interpolate_bad_channels, car, kfilt
+    from ibldsp.fourier import fshift
+    steps = case["steps"] if case["steps"] is not None else ["butterworth", "phase_shift"]
+    h = case_header(case)
+    kk = {"ntr_pad": 60, "ntr_tap": 0, "lagc": 0, "butter_kwargs": {"N": 3, "Wn": 0.01, "btype": "highpass"}}
+    if "butterworth" in steps:
+        sos = scipy.signal.butter(N=3, Wn=300 / 30000 * 2, btype="highpass", output="sos")
+        snip = scipy.signal.sosfiltfilt(sos, snip)
+    if "phase_shift" in steps:
+        snip = fshift(snip, h["sample_shift"], axis=-1)
+    if "bad_channel_interpolation" in steps:
+        snip = interpolate_bad_channels(snip, labels, h["x"], h["y"])
+    if "car" in steps:
+        snip = car(snip, **kk)
+    if "kfilt" in steps:
+        snip = kfilt(snip, **kk)
+    return snip
+
+
+def expected_processed(case, plan, data, labels):
+    """Traces expected from the plan: every chunk's snippet processed once, windows cut out of it."""
+    nc, L = case["nc"], case["L"]
+    nb = ref_neighbours(case["geom"])
+    out, cache = {}, {}
+    for wfi, i, a, ln, q0, pk in plan:
+        if i not in cache:
+            with warnings.catch_warnings():
+                warnings.simplefilter("ignore")
+                sn = apply_steps(case, data[a:a + ln, :nc].T.copy(), labels)
+            cache[i] = np.vstack([np.asarray(sn, dtype=np.float64), np.full((1, ln), np.nan)])
+        out[wfi] = cache[i][np.array(nb[pk])][:, q0:q0 + L].astype(np.float32)
+    return out
+
+
+def oracle(case, obs, data, expected=None):
+    """The property's clauses evaluated on the implementation's files only.  expected: waveform by row
+    when the traces are not the raw source (preprocessing)."""
     bad = []
     ns, nc, to, L, maxwf = case["ns"], case["nc"], case["to"], case["L"], case["maxwf"]
     sp = case["spikes"]
@@ -308,7 +387,14 @@ def oracle(case, obs, data):
             bad.append(("window", "row %d: window of sample %d outside the recording" % (r, s)))
             break
         exp = src[np.array(nb[pc])][:, s - to:s - to + L]
-        if not nan_eq(tr[r], exp):
+        if expected is not None:
+            exp = expected.get(int(tb[r, 4]))
+            if exp is None or np.asarray(exp).shape != tr[r].shape or \
+                    not np.allclose(tr[r], exp, rtol=1e-5, atol=1e-4, equal_nan=True):
+                bad.append(("window", "row %d (sample %d, peak %d): waveform differs from the requested steps %s applied "
+                            "in order to the snippet of its chunk" % (r, s, pc, case["steps"])))
+                break
+        elif not nan_eq(tr[r], exp):
             bad.append(("window", "row %d (sample %d, peak %d): waveform differs from the source window" % (r, s, pc)))
             break
         if list(ch[r]) != nb[pc]:
@@ -363,7 +449,8 @@ def oracle(case, obs, data):
             warnings.simplefilter("ignore")
             for i, c in enumerate(present):
                 rows = [r for r in range(n) if keys[r][0] == c]
-                if not nan_eq(tp[i], np.nanmedian(tr[rows].astype(np.float64), axis=0)):
+                if not nan_eq(tp[i], np.nanmedian(tr[rows].astype(np.float64), axis=0)) and \
+                        not nan_eq(tp[i], np.nanmedian(tr[rows], axis=0)):
                     bad.append(("templates", "template %d is not the median of the rows of cluster %d" % (i, c)))
                     break
         if not np.all(np.isnan(tp[len(present):])):
@@ -399,6 +486,40 @@ def enc_inp(case, size, picks):
         out += [len(p)] + p
     out += enc_opt(case["labels"]) + enc_opt(case["indices"])
     return out
+
+
+def enc_inp_plan(case, size, picks):
+    out = enc_inp(case, size, picks)
+    out[0] = 4
+    steps = case["steps"] if case["steps"] is not None else ["butterworth", "phase_shift"]
+    return out + [len(steps)] + [STEP_CODES.get(x, 9) for x in steps]
+
+
+def enc_obs_plan(case, size, obs):
+    if "error" in obs:
+        return [0]
+    tb, ch, tp = obs["table"], obs["channels"], obs["templates"]
+    n = tb.shape[0]
+    out = [1, 1, n] + [int(x) for x in tb.ravel()]
+    plan = sorted(py_plan(case, size, tb), key=lambda p: (p[1], order_of(tb, p[0])))      # job order: chunk, then time
+    out += [len(plan)] + [v for p in plan for v in p]
+    out += [ch.shape[0], ch.shape[1]] + [int(x) for x in ch.ravel()]
+    clusters = []
+    for c in tb[:, 2]:
+        if int(c) not in clusters:
+            clusters.append(int(c))
+    out += [tp.shape[0], len(clusters)]
+    for c in clusters:
+        rows = [int(w) for w, cc in zip(tb[:, 4], tb[:, 2]) if int(cc) == c]
+        out += [min(rows), max(rows) + 1]
+    for name in ("q", "all", "lab", "ind"):
+        out += [len(obs["rows_" + name])] + obs["rows_" + name]
+    return out
+
+
+def order_of(tb, wfi):
+    """Position of the row with this waveform_index in the time-ordered table (its `index` column)."""
+    return int(tb[list(tb[:, 4]).index(wfi), 0])
 
 
 def enc_cells(a, scale=1):
@@ -609,7 +730,7 @@ def gen_array_case(rng, big=None):
         samples, peaks = [], []
     return {"geom": geom, "r2": r2, "ns": ns, "to": to, "L": L, "dtype": dtype, "order": rng.choice(["C", "F"]),
             "add_nan": add_nan, "samples": samples, "peaks": peaks, "kind": kind,
-            "df_dtype": rng.choice(["int64", "int32"])}
+            "df_dtype": rng.choice(["int64", "int32"]), "verbose": rng.random() < 0.1}
 
 
 def array_setup(c):
@@ -640,8 +761,9 @@ def impl_array(c):
     try:
         with warnings.catch_warnings(), time_limit(60):
             warnings.simplefilter("ignore")
-            ret = extract_wfs_array(arr, df, nbarr, trough_offset=c["to"],
-                                    spike_length_samples=c["L"], add_nan_trace=c["add_nan"])
+            with open(os.devnull, "w") as dn, contextlib.redirect_stderr(dn):      # verbose=True draws a progress bar
+                ret = extract_wfs_array(arr, df, nbarr, trough_offset=c["to"], spike_length_samples=c["L"],
+                                        add_nan_trace=c["add_nan"], verbose=bool(c.get("verbose")))
     except BaseException as e:  # noqa
         return {"error": err_text(e)}
     obs = {"shape_bad": None, "modified": []}
@@ -874,6 +996,196 @@ def run_session_pair(ctx, rng, work, cid0, layout, inputs, outputs, descs):
     return len(res)
 
 
+# ---- preprocessing steps, .cbin input, channel detection (values are not the integer encoding) ----
+def gen_pp_cases(rng, cid0, thorough):
+    specs = [(["butterworth"], "given"), (["phase_shift"], "none"), (["bad_channel_interpolation"], "given"),
+             (["car"], "given"), (["kfilt"], "none"), (None, "none"),
+             (["kfilt", "bad_channel_interpolation", "phase_shift", "butterworth"], "given"),
+             (["bad_channel_interpolation"], "detect"),
+             (["car", "kfilt"], "none"), (["butterworth", "bogus"], "none")]
+    if thorough:
+        specs = specs + [(rng.sample(["butterworth", "phase_shift", "bad_channel_interpolation", rng.choice(["car", "kfilt"])],
+                                     rng.randrange(1, 5)), rng.choice(["given", "none"])) for _ in range(20)]
+    out = []
+    for j, (steps, lab) in enumerate(specs):
+        c = gen_case(rng, cid0 + j)
+        # 16 channels: the spatial filters (car / kfilt) need more traces than their filter padding
+        while not any(c["to"] < sp[0] < c["ns"] - (c["L"] - c["to"]) for sp in c["spikes"]) or c["nc"] != 16:
+            c = gen_case(rng, cid0 + j)
+        c["steps"], c["float_seed"], c["shift"] = steps, rng.randrange(1, 10 ** 6), True
+        c["sizes"] = [max(c["sizes"][0], 60, c["to"])]
+        if lab == "given":
+            c["chan_labels"] = [1 if rng.random() < 0.2 else 0 for _ in range(c["nc"])]
+            c["chan_labels"][rng.randrange(c["nc"])] = 0
+        elif lab == "detect":        # channel_labels=None + interpolation: labels detected on 1 s snippets -> long recording
+            c["ns"] = 66000 + rng.randrange(0, 500)
+            hi = c["ns"] - (c["L"] - c["to"])
+            c["spikes"] = sorted([[rng.choice([c["to"] + 1, hi - 1, rng.randrange(c["to"] + 1, hi), 30000, 29999]), u, rng.randrange(c["nc"])]
+                                  for u in (1, 2) for _ in range(4)], key=lambda s_: s_[0])
+            c["sizes"] = [30000]
+            c["labels"], c["indices"] = None, None
+        c["malformed"] = steps is not None and ("bogus" in steps or ("car" in steps and "kfilt" in steps))
+        c["wfs_dtype"] = "float64" if j == 0 else None       # documented parameter (has no effect on the file)
+        c["pp"] = True
+        out.append(c)
+    return out
+
+
+def gen_cbin_case(rng, cid, scratch):
+    ns = rng.randrange(700, 1500)
+    to, L = rng.choice([(42, 128), (5, 20)])
+    hi = ns - (L - to)
+    spikes = sorted([[rng.choice([to, to + 1, hi - 1, hi, rng.randrange(0, ns), rng.randrange(to + 1, hi)]), u,
+                      rng.choice([0, 383, rng.randrange(384)])] for u in (3, 9) for _ in range(5)], key=lambda s_: s_[0])
+    return {"id": cid, "ns": ns, "nc": 384, "to": to, "L": L, "maxwf": rng.choice([2, 4]), "spikes": spikes,
+            "seed": rng.choice([0, 7]), "labels": None, "indices": [0, 1], "sizes": [rng.choice([500, ns, 777])],
+            "dt": ["int64", "uint64", "int32"], "strided": False, "bin_str": False, "h_none": True,
+            "steps": [], "reader_kwargs": {}, "cbin": True, "scratch": scratch, "pp": True}
+
+
+def make_cbin(case, d):
+    """A small compressed NP1 recording with its .ch and .meta; returns the .cbin and what the Reader reads."""
+    import spikeglx
+    meta = Path(common.REPO) / "src" / "tests" / "fixtures" / "sample3B_g0_t0.imec1.ap.meta"
+    binf = Path(d) / "rec_g0_t0.imec1.ap.bin"
+    np.random.seed(1000 + case["id"])            # _mock_spikeglx_file draws from the global generator
+    md = spikeglx._mock_spikeglx_file(binf, meta, ns=case["ns"], nc=385, sync_depth=16, random=True)
+    sr = spikeglx.Reader(binf)
+    cb = sr.compress_file(keep_original=False)
+    sr.close()
+    sr = spikeglx.Reader(cb)
+    data = np.array(sr[:, :])
+    geom = [[int(x), int(y)] for x, y in zip(sr.geometry["x"], sr.geometry["y"])]
+    sr.close()
+    return cb, data, geom
+
+
+def run_pp_case(ctx, case, work, n_jobs, inputs, outputs, descs, stats):
+    from ibldsp import waveform_extraction as we
+    d = Path(work) / ("pp%d" % case["id"])
+    d.mkdir()
+    try:
+        if case.get("cbin"):
+            with open(os.devnull, "w") as dn, contextlib.redirect_stderr(dn):
+                binf, data, case["geom"] = make_cbin(case, d)
+            before = sorted(p.name for p in d.iterdir())
+            if case["scratch"]:
+                case["scratch"] = str(d / "scratch")
+        else:
+            binf, data = make_recording(case, d)
+        size = case["sizes"][0]
+        desc = case_desc(case, size, n_jobs)
+        for k in ("steps", "chan_labels", "float_seed", "shift", "wfs_dtype", "cbin", "scratch", "pp", "id", "reader_kwargs"):
+            desc[k] = case.get(k)
+        with open(os.devnull, "w") as dn, contextlib.redirect_stderr(dn):
+            obs = impl_extract(case, binf, size, n_jobs, d / "out")
+        stats["pp_runs"] = stats.get("pp_runs", 0) + 1
+        if "error" in obs:
+            if not case.get("malformed"):
+                ctx.fail("extract_wfs_cbin (preprocess_steps=%s%s) raised %s" % (case["steps"], ", .cbin" if case.get("cbin") else "",
+                                                                          obs["error"]), desc, {"kind": "exception", "class": "preprocess"})
+        elif case.get("malformed"):
+            ctx.fail("extract_wfs_cbin accepted preprocess_steps=%s" % case["steps"], desc, {"kind": "preprocess", "class": "accepted"})
+        else:
+            try:
+                expected = None
+                if not case.get("cbin"):
+                    labels = np.zeros(case["nc"]) if case.get("chan_labels") is None else np.array(case["chan_labels"], dtype=float)
+                    steps = case["steps"] if case["steps"] is not None else ["butterworth", "phase_shift"]
+                    if case.get("chan_labels") is None and "bad_channel_interpolation" in steps:
+                        import spikeglx
+                        with open(os.devnull, "w") as dn, contextlib.redirect_stderr(dn):
+                            labels = we._get_channel_labels(spikeglx.Reader(binf, ns=case["ns"], nc=case["nc"] + 1, nsync=1,
+                                                                            dtype="float32", fs=30000))
+                    expected = expected_processed(case, py_plan(case, size, obs["table"]), data, labels)
+                for kind, what in oracle(case, obs, data, expected):
+                    ctx.fail(what, desc, {"kind": kind, "class": "preprocess"})
+                if obs["traces"].dtype != np.float32:
+                    ctx.fail("waveforms.traces.npy has dtype %s" % obs["traces"].dtype, desc, {"kind": "shape", "class": "preprocess"})
+            except Exception as e:  # noqa
+                ctx.fail("output files cannot be interpreted (%s)" % err_text(e), desc, {"kind": "malformed_output"})
+        if case.get("cbin"):
+            after = sorted(p.name for p in d.iterdir())
+            gone = [f for f in before if f not in after]
+            left = [f for f in after if f not in before and f not in ("out", "scratch")] + \
+                ([p.name for p in (d / "scratch").iterdir()] if (d / "scratch").exists() else [])
+            if gone:
+                ctx.fail("extract_wfs_cbin on a .cbin deleted %s of the session (scratch_dir=%s)" % (gone, case["scratch"]), desc,
+                         {"kind": "inputs", "class": "session_file_deleted" if not case["scratch"] else "deleted_with_scratch"})
+            if left:
+                ctx.fail("extract_wfs_cbin left its decompressed copy behind: %s" % left, desc, {"kind": "inputs", "class": "scratch_left"})
+        try:
+            enc_o, enc_i = enc_obs_plan(case, size, obs), enc_inp_plan(case, size, obs["picks"])
+        except Exception as e:  # noqa
+            ctx.fail("output files cannot be encoded (%s)" % err_text(e), desc, {"kind": "malformed_output"})
+            enc_o, enc_i = [-998], enc_inp_plan(case, size, [])
+        inputs.append(enc_i)
+        outputs.append(enc_o)
+        descs.append(desc)
+    finally:
+        shutil.rmtree(d, ignore_errors=True)
+
+
+# ---- WaveformsLoader on legacy "data version 1" files (4-D traces, NaN-padded table) ----
+def run_legacy_loader(ctx, rng, work):
+    """Files in the layout older extractors wrote (not produced by extract_wfs_cbin any more): traces
+    (units, max_wf, nc, ns), one table row per slot with NaN sample / peak for the empty slots.  Oracle only:
+    the waveforms returned for (labels, indices) are traces[unit, indices]; info / channels are the rows of
+    those units; flatten stacks them."""
+    from ibldsp import waveform_extraction as we
+    d = Path(work) / "legacy"
+    d.mkdir()
+    nu, mw, nc, ns = 3, 4, 5, 6
+    units = sorted(rng.sample(range(1, 50), nu))
+    nvalid = [mw, rng.randrange(1, mw), rng.randrange(1, mw + 1)]
+    tr = np.full((nu, mw, nc, ns), np.nan, dtype=np.float32)
+    rows = []
+    for u in range(nu):
+        for k in range(mw):
+            ok = k < nvalid[u]
+            if ok:
+                tr[u, k] = 1000 * u + 10 * k + np.arange(nc)[:, None] + np.arange(ns)[None, :] / 10
+            rows.append({"index": u * mw + k, "sample": float(100 * u + k) if ok else np.nan, "cluster": units[u],
+                         "peak_channel": float(k % nc) if ok else np.nan})
+    np.save(d / "waveforms.traces.npy", tr)
+    np.save(d / "waveforms.templates.npy", np.nanmedian(tr, axis=1))
+    pd.DataFrame(rows).to_parquet(d / "waveforms.table.pqt")
+    chans = np.tile(np.arange(nc), (nu * mw, 1)).astype(float)
+    np.savez(d / "waveforms.channels.npz", channels=chans)
+    desc = {"legacy_v1": True, "units": units, "nvalid": nvalid, "shape": [nu, mw, nc, ns]}
+    bad = []
+    try:
+        with warnings.catch_warnings(), time_limit(60):
+            warnings.simplefilter("ignore")
+            h0 = file_hashes(d)
+            wl = we.WaveformsLoader(d)
+            if wl.data_version != 1:
+                bad.append("4-D traces file not recognised as data version 1")
+            for lab, ind, flat in ((None, None, False), ([units[0], units[2]], [0, 2], False), ([units[1]], [1], True),
+                                   (units, list(range(max(nvalid))), True)):
+                wfs, info, ch = wl.load_waveforms(labels=None if lab is None else np.array(lab),
+                                                  indices=None if ind is None else np.array(ind), flatten=flat)
+                labs = units if lab is None else lab
+                idx = list(range(max(nvalid))) if ind is None else ind
+                exp = tr[[units.index(u) for u in labs]][:, idx]
+                exp = exp.reshape(-1, nc, ns) if flat else exp
+                if not nan_eq(wfs, exp):
+                    bad.append("load_waveforms(labels=%s, indices=%s, flatten=%s) does not return traces[unit, indices]" % (lab, ind, flat))
+                rws = [u * mw + k for u in range(nu) if units[u] in labs for k in range(mw)]
+                if [int(x) for x in info.index] != rws or not np.array_equal(np.asarray(ch), chans[rws].astype(int)):
+                    bad.append("load_waveforms(labels=%s): info / channels are not the rows of the requested units" % (lab,))
+                scribble(wfs, info, ch)
+            del wl
+            if file_hashes(d) != h0:
+                bad.append("legacy files changed on disk during load_waveforms calls")
+    except BaseException as e:  # noqa
+        bad.append("WaveformsLoader on data-version-1 files raised %s" % err_text(e))
+    for w in bad:
+        ctx.fail(w, desc, {"kind": "loader_v1"})
+    shutil.rmtree(d, ignore_errors=True)
+    return 1
+
+
 def malformed_cases(rng, cid0):
     out = []
     for j in range(3):
@@ -929,7 +1241,9 @@ def run(ctx):
     ncases = 220 if ctx.thorough() else 28
     cases = [gen_case(rng, i) for i in range(ncases)]
     bigs = [{"version": 1}, {"version": 2}, {"version": 2, "nshank": 4}]
-    for b in (bigs if ctx.thorough() else [bigs[rng.randrange(3)]]):
+    # quick: the full NP1 probe comes through the two .cbin cases (geometry from the meta file), NP2 / 4-shank
+    # geometries through the direct extract_wfs_array cases; thorough: all three as ordinary recordings too
+    for b in (bigs if ctx.thorough() else []):
         c = gen_case(rng, len(cases), big=b)
         c["sizes"] = c["sizes"][:2]
         cases.append(c)
@@ -955,6 +1269,13 @@ def run(ctx):
             for i in range(before, len(inputs)):
                 if outputs[i][0] == 1 and outputs[i][2] >= 2 and -(-case["ns"] // descs[i]["size"]) >= 2:
                     nontrivial.add(json.dumps(descs[i], sort_keys=True))
+        stats["legacy_loader_runs"] = run_legacy_loader(ctx, rng, work)
+        # preprocessing steps, channel detection, .cbin input
+        pp_cases = gen_pp_cases(rng, 7000, ctx.thorough()) + [gen_cbin_case(rng, 7500, None), gen_cbin_case(rng, 7501, "dir")]
+        for j, c in enumerate(pp_cases):
+            if not HUNG:
+                run_pp_case(ctx, c, work, 2 if j % 4 == 3 else 1, inputs, outputs, descs, stats)
+        stats["pp_steps"] = [c["steps"] for c in pp_cases]
         # two sessions in turn, from inside their folders (child process; the harness cwd is untouched)
         layouts = [{"out": "relative", "bin": ["absolute", "absolute_str"], "n_jobs": 2},
                    {"out": "relative", "bin": ["relative", "relative_str"], "n_jobs": 1},
@@ -1040,6 +1361,9 @@ def run(ctx):
             "extract_wfs_array_kinds": {k: sum(1 for c in arr_cases if c["kind"] == k) for k in ("valid", "assert", "wrap", "peak_out", "empty")},
             "extract_wfs_array_dtype_order_flag": dict(sorted(arr_stats.items())),
             "loader_calls_in_sequences_with_inplace_edits": stats["loader_calls"],
+            "legacy_v1_loader_runs": stats.get("legacy_loader_runs", 0),
+            "preprocess_and_cbin_runs": stats.get("pp_runs", 0),
+            "preprocess_step_lists": [("default" if x is None else "+".join(x) or "none") for x in stats.get("pp_steps", [])],
             "session_pairs_with_chdir": stats.get("session_pairs", 0),
             "seed_values": {"0": sum(1 for c in cases if c["seed"] == 0), "1": sum(1 for c in cases if c["seed"] == 1),
                             "2**40": sum(1 for c in cases if c["seed"] == 2 ** 40),
@@ -1083,6 +1407,24 @@ def replay(ctx, data):
     if not inp:
         print(json.dumps(data, indent=1)[:3000])
         return 1
+    if inp.get("pp"):
+        class Collect:
+            def __init__(self):
+                self.items = []
+
+            def fail(self, what, case, tags=None):
+                self.items.append(what)
+        col, ins, outs, ds = Collect(), [], [], []
+        case = dict(inp, id=inp.get("id", 0), sizes=[inp["size"]])
+        work = common.tmpdir("C13_replay_")
+        try:
+            run_pp_case(col, case, work, inp["n_jobs"], ins, outs, ds, {})
+        finally:
+            shutil.rmtree(work, ignore_errors=True)
+        print("property clauses failing on the implementation:", col.items)
+        ids = common.coq_mismatches(PROP, HEADER, [common.flat_cases_term(0, ins[0], outs[0])]) if ins else [0]
+        print("kernel-evaluated model agrees with implementation:", not ids)
+        return 1 if (col.items or ids) else 0
     if "sessions" in inp:
         lay = inp["session_pair"]
         sessions = [{"case": dict(c, id=0), "size": c["size"], "n_jobs": c["n_jobs"], "out": lay["out"], "bin": lay["bin"][k]}
